@@ -28,7 +28,7 @@ type c20Desc struct {
 var c20Fields = map[string][]string{
 	"a": {"1", "\"s\"", "-7", "\"\"", "null(int64)"},
 	"b": {"1.5", "2", "null(float64)", "true"},
-	"c": {"[1,2]", "[\"x\"]", "[]", "[1,\"y\"]", "|[3]|"},
+	"c": {"[1,2]", "[\"x\"]", "[]", "[1,\"y\"]", "|[3]|", "[2,1,2]", "|[5,4]|", "[\"b\",\"a\",\"b\"]"},
 	"r": {"{x:1}", "{x:\"s\",y:2}", "{y:3,x:4}", "{x:{z:1}}", "{}"},
 	"e": {"error(\"bad\")", "1", "10.0.0.1"},
 	"m": {"|{1:\"a\"}|", "|{2:\"b\",3:\"c\"}|", "5", "|{\"k\":2}|", "|{1:2,3:4}|", "|{}|"},
